@@ -7,6 +7,7 @@
 -/
 import IbcVerif.Util.J
 import IbcVerif.Model.TmClient
+import IbcVerif.Driver.TmLight
 open Lean
 namespace IbcVerif.Driver.TmClient
 open IbcVerif IbcVerif.J IbcVerif.Tm
@@ -199,12 +200,12 @@ def handle (st : St) (f : String) (j : Json) : Except String (St × Json) := do
   -- pure functions
   | "be.height" => let h ← getH j "h"; pure (st, okHex (beHeight h))
   | "calcTP" => pure (st, okNat (calculateNewTrustingPeriod (← nat j "tp") (← nat j "orig") (← nat j "new")))
-  | "parseChainID" =>
-    match parseChainID (← str j "s") with
-    | some n => pure (st, okNat n)
-    | none => pure (st, Json.mkObj [("panic", true)])
+  | "parseChainID" => pure (st, okNat (parseChainID (← str j "s")))
   | "isExpired" => pure (st, okBool (isExpired (← int j "tp") (← int j "ts") (← int j "now")))
-  | _ => throw s!"unknown function {f}"
+  | _ =>
+    match IbcVerif.Driver.TmLight.handle f j with
+    | some r => pure (st, ← r)
+    | none => throw s!"unknown function {f}"
 
 def stepJson (st : St) (j : Json) : St × Json :=
   match str j "f" with
